@@ -104,11 +104,36 @@ def regenerate(log):
             os.remove(os.path.join(tmp, f))
     os.makedirs(tmp, exist_ok=True)
     rc, out, _ = run([tr, "-repo", REPO, "-out", tmp], cwd=HARNESS, env=GOENV)
+    failed = {}
     if rc != 0:
-        log.append("translator failed:\n" + out)
-        return {"ok": False, "error": "untranslatable source: " + out[-3000:]}
+        # a generator that refuses its source (fail closed) only takes down the properties whose proofs
+        # depend on its output: its file is removed so that exactly those modules stop building
+        for line in out.splitlines():
+            m = re.match(r"^([a-z_]+): (.*)$", line)
+            if m and m.group(2) != "ok":
+                failed[m.group(1)] = m.group(2)
+        log.append("translator: " + out)
+        if not failed:
+            return {"ok": False, "error": "translator failed: " + out[-3000:]}
+        for g in failed:
+            f = GEN_OUTPUT.get(g)
+            if f and os.path.exists(os.path.join(tmp, f)):
+                os.remove(os.path.join(tmp, f))
     changed = sync_dir(tmp, os.path.join(LEAN, "JPV", "Gen"))
-    return {"ok": True, "changed": changed, "note": out.strip()[-500:]}
+    for g in failed:
+        f = GEN_OUTPUT.get(g)
+        if f and os.path.exists(os.path.join(LEAN, "JPV", "Gen", f)):
+            os.remove(os.path.join(LEAN, "JPV", "Gen", f))
+    return {"ok": True, "changed": changed, "failed_generators": failed, "note": out.strip()[-500:]}
+
+
+# which file each generator of harness/cmd/translate writes
+GEN_OUTPUT = {
+    "slices": "SliceGo.lean", "grammar": "Grammar.lean", "escape": "EscapeGo.lean", "sortkeys": "SortKeys.lean",
+    "validators": "Validators.lean", "comparators": "Comparators.lean", "operand_order": "OperandOrder.lean",
+    "facts": "Facts.lean", "accessor": "AccessorGo.lean", "functions": "FunctionsGo.lean", "errors": "ErrorsGo.lean",
+    "queries": "QueriesGo.lean", "nodes": "NodesGo.lean", "parsewrap": "ParseWrapGo.lean",
+}
 
 
 GREP_BAD = re.compile(r"\bsorry\b|\badmit\b|^axiom |native_decide|bv_decide|implemented_by|\bunsafe |maxHeartbeats 0", re.M)
@@ -149,7 +174,7 @@ def source_grep():
     return hits
 
 
-def prove(prop, cfg, log, thorough=False):
+def prove(prop, cfg, log, thorough=False, gen_failed=None):
     """step 2: build the property's modules, audit axioms of its obligations"""
     res = {"ok": True, "obligations": [], "discharged": [], "failed": [], "pending": cfg.get("pending", []), "detail": ""}
     mods = cfg.get("modules", [])
@@ -163,6 +188,8 @@ def prove(prop, cfg, log, thorough=False):
         res["ok"] = False
         errs = [l for l in out.splitlines() if "error" in l.lower()]
         res["detail"] = "lake build failed: " + "\n".join(errs[:12]) + "\n" + out[-1500:]
+        if gen_failed:
+            res["detail"] = "source no longer translatable: " + "; ".join("%s: %s" % kv for kv in gen_failed.items()) + "\n" + res["detail"]
         res["failed"] = obls
         log.append(out)
         return res
@@ -214,16 +241,19 @@ def prove(prop, cfg, log, thorough=False):
 
 
 def build_tools(log):
-    """step 3: drivers and harness from the working tree"""
-    rc, out, _ = run(["lake", "build", "jpv-spec", "jpv-impl", "jpv-peg"], cwd=LEAN, timeout=3000)
-    drivers_ok = rc == 0
-    if rc != 0:
-        log.append(out)
+    """step 3: drivers and harness from the working tree; returns (set of drivers that do not build, harness ok, texts)"""
+    bad, dtxt = set(), ""
+    for name in ("spec", "impl", "peg"):
+        rc, out, _ = run(["lake", "build", "jpv-" + name], cwd=LEAN, timeout=3000)
+        if rc != 0:
+            bad.add(name)
+            dtxt += "jpv-%s: %s\n" % (name, out[-800:])
+            log.append(out)
     os.makedirs(os.path.join(HARNESS, "bin"), exist_ok=True)
     rc2, out2, _ = run(["go", "build", "-tags", "verif", "-o", JPH, "./cmd/jph"], cwd=HARNESS, env=GOENV, timeout=1200)
     if rc2 != 0:
         log.append(out2)
-    return drivers_ok, (rc2 == 0), (out if rc != 0 else ""), (out2 if rc2 != 0 else "")
+    return bad, (rc2 == 0), dtxt, (out2 if rc2 != 0 else "")
 
 
 def load_known():
@@ -325,8 +355,9 @@ def main(argv):
         pr = {"ok": False, "obligations": cfg.get("obligations", []), "discharged": [], "failed": cfg.get("obligations", []),
               "detail": gen.get("error", ""), "pending": cfg.get("pending", [])}
         if gen["ok"]:
-            pr = prove(prop, cfg, log, thorough=(tier == "thorough"))
-        drivers_ok, jph_ok, derr, gerr = build_tools(log)
+            pr = prove(prop, cfg, log, thorough=(tier == "thorough"), gen_failed=gen.get("failed_generators"))
+        bad_drivers, jph_ok, derr, gerr = build_tools(log)
+        drivers_ok = not (bad_drivers & set(cfg.get("drivers", ["spec", "impl"])))
     if not jph_ok:
         print("infrastructure: the harness does not build against /repo with -tags verif:\n" + gerr[-3000:])
         return 2
@@ -447,7 +478,7 @@ def do_replay(prop, cfg, path):
         print("now:", "checks" if pr["ok"] else "still broken: " + str(pr.get("detail"))[:1500])
         return 0 if pr["ok"] else 1
     with Lock(os.path.join(VERIF, ".lock")):
-        drivers_ok, jph_ok, derr, gerr = build_tools([])
+        _bad, jph_ok, derr, gerr = build_tools([])
     if not jph_ok:
         print(gerr)
         return 2
